@@ -91,6 +91,89 @@ theorem C13_lines : ∀ (items : List (List (List Nat) × List (List Nat))),
       List.map_cons, List.map_nil, parse_join it.2 hrow, List.singleton_append]
     rw [ih]
 
+/-! ### `<msa>` blocks -/
+
+theorem rstripDots_id (f : List Nat) (h : ∀ c, f.getLast? = some c → c ≠ dot) : rstripDots f = f := by
+  unfold rstripDots
+  cases hr : f.reverse with
+  | nil =>
+    have : f = [] := List.reverse_eq_nil_iff.mp hr
+    subst this; rfl
+  | cons c r =>
+    have hc : c ≠ dot := h c (by rw [List.getLast?_eq_head?_reverse, hr]; rfl)
+    have : (c == dot) = false := by simpa using hc
+    simp only [List.dropWhile_cons, this, Bool.false_eq_true, if_false]
+    rw [← hr, List.reverse_reverse]
+
+theorem rstripDots_pad (w : Nat) (f : List Nat) (h : ∀ c, f.getLast? = some c → c ≠ dot) :
+    rstripDots (padDots w f) = f := by
+  unfold rstripDots padDots
+  rw [List.reverse_append, List.reverse_replicate]
+  have key : ∀ (k : Nat) (r : List Nat), (∀ c, r.head? = some c → c ≠ dot) →
+      (List.replicate k dot ++ r).dropWhile (· == dot) = r := by
+    intro k r hr
+    induction k with
+    | zero =>
+      cases r with
+      | nil => rfl
+      | cons c r' =>
+        have : (c == dot) = false := by simpa using hr c rfl
+        simp [List.dropWhile_cons, this]
+    | succ k ih => simpa [List.replicate_succ, List.dropWhile_cons] using ih
+  rw [key _ _ (by intro c hc; exact h c (by rw [List.getLast?_eq_head?_reverse]; exact hc)), List.reverse_reverse]
+
+theorem trim_pad (w : Nat) (f : List Nat) (h : Trim f) : Trim (padDots w f) := by
+  unfold padDots
+  have hd : isSpace dot = false := by decide
+  constructor
+  · intro c hc
+    cases f with
+    | nil =>
+      simp only [List.nil_append, List.head?_replicate] at hc
+      split at hc
+      · cases hc
+      · simp only [Option.some.injEq] at hc; rw [← hc]; exact hd
+    | cons x xs => simp at hc; exact h.1 c (by simp [hc])
+  · intro c hc
+    simp only [List.getLast?_append, List.getLast?_replicate] at hc
+    split at hc
+    · simp only [Option.none_or] at hc; exact h.2 c hc
+    · simp only [Option.some_or, Option.some.injEq] at hc; rw [← hc]; exact hd
+
+/-- **C13, a line of an `<msa>` block** is read back as the fields that were written, provided no field
+contains a tab, has outer white space or ends in a dot. -/
+theorem C13_msa_line (id taxon : List Nat) (w : Nat) (cells : List (List Nat))
+    (h : ∀ f ∈ id :: taxon :: cells, tab ∉ f ∧ Trim f ∧ ∀ c, f.getLast? = some c → c ≠ dot) :
+    parseMsaLine (msaLine id w taxon cells) = id :: taxon :: cells := by
+  unfold parseMsaLine msaLine
+  have hid := h id (by simp)
+  have htx := h taxon (by simp)
+  have htab : tab ∉ padDots w taxon := by
+    unfold padDots
+    intro hm
+    rcases List.mem_append.mp hm with hm | hm
+    · exact htx.1 hm
+    · have := List.eq_of_mem_replicate hm; exact absurd this (by decide)
+  rw [split_join _ (by simp) (by
+    intro f hf
+    rcases List.mem_cons.mp hf with rfl | hf
+    · exact hid.1
+    · rcases List.mem_cons.mp hf with rfl | hf
+      · exact htab
+      · exact (h f (by simp [hf])).1)]
+  simp only [List.map_cons]
+  rw [strip_id id hid.2.1, rstripDots_id id hid.2.2, strip_id _ (trim_pad w taxon htx.2.1), rstripDots_pad w taxon htx.2.2]
+  congr 2
+  conv => rhs; rw [← List.map_id cells]
+  apply List.map_congr_left
+  intro f hf
+  have := h f (by simp [hf])
+  rw [strip_id f this.2.1, rstripDots_id f this.2.2]; rfl
+
+/-- the finding recorded as `msa-taxon-trailing-dot`: a taxon name that ends in a dot (`Gr.`) is NOT
+read back – padding and a real trailing dot cannot be told apart -/
+example : parseMsaLine (msaLine [49] 5 [71, 114, 46] [[104], [97]]) = [[49], [71, 114], [104], [97]] := by decide
+
 /-- not vacuous: `ID<TAB>DOCULECT` / comment / `1<TAB>ab c` -/
 example : parseLines (serialize [([], [[73, 68], [68, 79, 67]]), ([[35]], [[49], [97, 98, 32, 99]])]) =
     [[[73, 68], [68, 79, 67]], [[49], [97, 98, 32, 99]]] := by decide
